@@ -72,6 +72,10 @@ Check(r, idx) ==
            /\ r.sc.setmax = <<>> /\ r.sc.stale = 0 /\ r.sc.smallbuf = 0
            /\ \E j \in DOMAIN evA : evA[j].c = "Overflow"
         THEN <<F(idx, "C07.overflow_within_maximum", <<r.sc.keys, r.sc.max, evA>>)>> ELSE <<>>)
+    \* C16: "no cache write is forgotten by the policies" - after a write-only phase of a single producer with a same-goroutine executor, in
+    \* which user code (the deletion handler) once wrote from inside a maintenance run, the events of the later writes have been consumed
+    \* (a few may wait for the next call by design; a buffer that kept (almost) all of them has lost its consumer: seeded C16l)
+    \o (IF r.sc.hwrite = 1 /\ r.sc.syncexec = 1 /\ r.prewbuf >= 10 THEN <<F(idx, "C16.events_stranded_after_write_only_phase", <<r.prewbuf, r.sc.ops>>)>> ELSE <<>>)
     \o (IF r.status # 0 \/ r.wbuf # 0 THEN <<F(idx, "C14.pending", <<r.status, r.wbuf>>)>> ELSE <<>>)
     \* C14: every call had returned, the cache reported no outstanding maintenance (status idle, write buffer empty), the policy's total
     \* was above its maximum - and one explicit CleanUp brought it back: the bound was restored only by a further call
